@@ -10,13 +10,13 @@ COMMON_NOTE = ("Trusted: Lean kernel (axioms propext/Classical.choice/Quot.sound
 CLAIMS = {
  "C02": ("Theorem partialEq_correct: for all type definitions, ignore/method assignments, leaf behaviours and value pairs the generated "
          "eq body (model with named binders and patterns) evaluates and equals the reference semantics; corollaries: ignored fields are "
-         "irrelevant, refl/symm/trans under the leaf laws. Tie: real macro + rustc on generated definitions, ==/!= compared three ways "
+         "irrelevant, refl/symm/trans under the leaf laws. generated_calls_unchanged_* (partial_eq, eq): the absolute `::core::..` paths named by the handler's quote! templates, regenerated from /repo/src, are exactly the listed ones - the generated code calls nothing else. Tie: real macro + rustc on generated definitions, ==/!= compared three ways "
          "(impl/model/spec). End to end (Props/E2E.lean): partialEq_end_to_end / partialEq_handler_end_to_end - whenever `expand` (the PartialEq handler) accepts a struct or enum given as syn's records, the per-field configuration it read from the attributes (cmpScan_spec: field by field the result of the builder on that field's own attribute list) is what the item carries and the eq body generated for it equals the reference semantics for all values; eq_ignores_ignored_fields states the ignore clause on attributes. Tie B6: every observation is answered a second time from syn's records of the real tokens through attribute layer -> Bridge -> body.",
          COMMON_NOTE + "`!=` is the trait default `!eq`; the reading of `==` as `!ne` assumes lawful leaf `ne`.",
          "Lean 4 theorem by induction over the field list + differential correspondence of the model against the real macro"),
  "C03": ("Theorems cmp_correct (cmp and partial_cmp bodies equal the lexicographic reference in ascending rank, None exactly when an "
          "incomparable field comes first), visit_order_is_rank_order (BTreeMap model = merge sort by rank, default rank isize::MIN+index), "
-         "accepted_ranks_distinct, both_educed_partial_cmp_is_some_cmp, lexCmp_refl/antisymm/trans under leaf laws. Tie: real macro + "
+         "accepted_ranks_distinct, both_educed_partial_cmp_is_some_cmp, lexCmp_refl/antisymm/trans under leaf laws. generated_calls_unchanged_* (ord, partial_ord, common/tools): the absolute `::core::..` paths named by the handler's quote! templates, regenerated from /repo/src, are exactly the listed ones - the generated code calls nothing else. Tie: real macro + "
          "rustc, cmp/partial_cmp on generated definitions with all rank spellings. End to end (Props/E2E.lean): ord_handler_end_to_end / partialOrd_handler_end_to_end / ord_end_to_end - acceptance by the Ord or PartialOrd handler yields the scan (ordScan_spec: ignore/method/rank per field from its own attributes, rank map without duplicates), the body exists (rankLoop_agrees) and equals the lexicographic reference; with both educed partial_cmp = Some(cmp). Tie B6 as for C02.",
          COMMON_NOTE + "rank values are modelled as unbounded Int (the isize range check of the parser belongs to the attribute layer, C13/C14).",
          "Lean 4 theorem (sorted-insertion = merge sort; induction over the visiting order) + differential correspondence"),
@@ -42,31 +42,31 @@ CLAIMS = {
  "C06": ("Theorems debug_correct (for every accepted configuration and value the fmt body makes exactly the builder calls of the effective "
          "shape: builder kind, effective name incl. Enum::Variant, ordered entries with effective keys `_i`/rename, formatter and value), "
          "debug_output (both formatter modes), shownFields_positions (ignored absent, declaration order), derive_equiv_enum (parameter-free = "
-         "#[derive(Debug)]). Tie: real macro + rustc, {:?} and {:#?} strings over name/rename/named_field/ignore/method assignments; "
+         "#[derive(Debug)]). generated_calls_unchanged_* (hash): the absolute `::core::..` paths named by the handler's quote! templates, regenerated from /repo/src, are exactly the listed ones - the generated code calls nothing else. generated_calls_unchanged_* (debug): the absolute `::core::..` paths named by the handler's quote! templates, regenerated from /repo/src, are exactly the listed ones - the generated code calls nothing else. generated_calls_unchanged_* (clone, copy): the absolute `::core::..` paths named by the handler's quote! templates, regenerated from /repo/src, are exactly the listed ones - the generated code calls nothing else. Tie: real macro + rustc, {:?} and {:#?} strings over name/rename/named_field/ignore/method assignments; "
          "parameter-free definitions also against a #[derive(Debug)] twin. End to end (Props/E2E.lean): debug_struct_end_to_end / debug_enum_end_to_end / dbgScan_of_handler - acceptance by the Debug handler yields the type-, variant- and field-level configuration (each read from its own attribute list, the field `name` switch dictated by the `named_field` in force), the fmt body exists and its output is the builders' rendering of the effective shape in both modes. Tie B6.",
          COMMON_NOTE + "core::fmt's DebugStruct/DebugTuple/DebugMap/PadAdapter are modelled (Sem/FmtBuilders.lean) and validated by the same runs, not proved; derive-equivalence is proved for enums and observed for structs.",
          "Lean 4 theorem on builder calls + differential correspondence on output strings"),
  "C09": ("Theorems deref_correct (accepted => for every value `&*x`/`&mut *x` designates the sole field or the marked one; includes the "
          "wildcard-counted tuple pattern lemma matchTuple_replicate), pick_eq_designated / struct_refused_iff / variant_refused_iff (refused "
-         "exactly when the designation is missing, duplicated or the variant is a unit), write_through_only_designated. Tie: real macro + rustc, "
+         "exactly when the designation is missing, duplicated or the variant is a unit), write_through_only_designated. generated_calls_unchanged_* (deref, deref_mut): the absolute `::core::..` paths named by the handler's quote! templates, regenerated from /repo/src, are exactly the listed ones - the generated code calls nothing else. Tie: real macro + rustc, "
          "pointer identity of `&*x` / `&mut *x` against every field's storage (or referent), fields changed after a write. End to end (Props/E2E.lean): deref_struct_end_to_end / deref_enum_end_to_end with derefLoop_pickLoop / derefPick_pick (the attribute layer's marker loop and the behavioural layer's are the same loop): the field index the item reports is the designated field of the reference semantics on the markers read from the fields' own attributes, and `&*x` designates it for every value. Tie B6. The type helpers are inside the model (Ty.ungroup / isRef / dereference, Attr/Syntax.lean; group_is_transparent, dereference_not_ref, dereference_of_not_ref); Deref::Target of the real impl is compared with the model's dereferenced type.",
          COMMON_NOTE + "the model returns the designated field index; that a reference-typed field yields its referent is Rust's deref coercion (observed, not modelled); Target type agreement across variants is rustc's check.",
          "Lean 4 theorem + differential correspondence by pointer identity"),
  "C10": ("Theorems into_correct (for every generated impl and value, x.into() is the field designated for T — sole field, else marked, else "
          "unique same-typed — through the marker's method / unchanged when already T / Into<T> otherwise), select_ok_iff / select_error_iff "
          "(the two selection loops = the designation function, refused exactly when not unique), items_targets (one impl per requested "
-         "target, no other). Tie: real macro + rustc with source/target types whose conversions are pairwise distinguishable. End to end (Props/E2E.lean): into_handler_end_to_end with intoSelect_select / intoLoop_markerLoop / intoSame_sameTypeLoop (the attribute layer's field selection for a target and the behavioural layer's are the same procedure, for every injective numbering of the normalised type strings): one item per requested target in the order of the sorted target map, and for each the generated impl returns the field designated by the reference semantics on the markers read from the fields' own attributes. Tie B6. The normalisation of target and field types (to_hash_type) is inside the model (Ty.hashTy; hashTy_of_refs, hashTy_of_not_ref) and computed by the driver from syn's type trees.",
+         "target, no other). generated_calls_unchanged_* (into): the absolute `::core::..` paths named by the handler's quote! templates, regenerated from /repo/src, are exactly the listed ones - the generated code calls nothing else. Tie: real macro + rustc with source/target types whose conversions are pairwise distinguishable. End to end (Props/E2E.lean): into_handler_end_to_end with intoSelect_select / intoLoop_markerLoop / intoSame_sameTypeLoop (the attribute layer's field selection for a target and the behavioural layer's are the same procedure, for every injective numbering of the normalised type strings): one item per requested target in the order of the sorted target map, and for each the generated impl returns the field designated by the reference semantics on the markers read from the fields' own attributes. Tie B6. The normalisation of target and field types (to_hash_type) is inside the model (Ty.hashTy; hashTy_of_refs, hashTy_of_not_ref) and computed by the driver from syn's type trees.",
          COMMON_NOTE + "types are compared by normalised token string as the code does (opaque ids in the model); the iteration order of the target map is an input of the model here and the subject of C16.",
          "Lean 4 theorem + differential correspondence on returned values"),
  "C08": ("Theorems default_correct (accepted => T::default() is the type-level expression, else the struct / marked-or-only variant / "
          "marked-or-only union field with each field = its expression or its type's default), ambiguous_refused (missing or duplicated "
          "designation is refused), new_eq_default, into_wrap_iff_not_natural (a bare literal is wrapped in Into::into exactly when the "
-         "field type is not the literal's natural type) and non_literal_never_wrapped. Tie: real macro + rustc; oracle values are built "
+         "field type is not the literal's natural type) and non_literal_never_wrapped. generated_calls_unchanged_* (default, common): the absolute `::core::..` paths named by the handler's quote! templates, regenerated from /repo/src, are exactly the listed ones - the generated code calls nothing else. keepsBare_sound / keepsBare_complete / adjust_converts_iff: the model of auto_adjust_expr leaves a literal bare exactly when Rust's typing gives the literal the type as spelled (the model's decision is compared with the real tokens of every Default impl). Tie: real macro + rustc; oracle values are built "
          "independently of educe; unions compared by byte image. End to end (Props/E2E.lean, structs and enums): default_handler_end_to_end with defaultVariantLoop_variantLoop (the handler's loop over the variants and the behavioural generator's are the same loop on the flags read from the variants' own attributes), defFieldAttr_off / defVariantAttr_off (where the handler switched marker and expression off, the only acceptable Default attribute is the empty list, so reading the field with the expression switched on finds nothing), fromAttrs_ok_cases, runParams_invariant / runParams_all_disabled: acceptance yields the configuration read from the same tokens, the body exists and T::default() is the reference value. Tie B6.",
          COMMON_NOTE + "the value of a user expression is an input of the model (measured by rustc), the model decides which expression goes to which field and whether Into is applied; literal kind/suffix and the field type's token string are read by syn.",
          "Lean 4 theorem + differential correspondence against independently built values"),
  "C20": ("Theorems union_generated_iff_unsafe, union_eq_bytewise, union_hash_injective / union_hash_shape (length prefix + the bytes as one "
-         "slice), union_debug_named / union_debug_bare, union_clone_bitwise, union_default_designated. Tie: real macro + rustc over unions "
+         "slice), union_debug_named / union_debug_bare, union_clone_bitwise, union_default_designated. Props/ListParse.lean: parseUnsafe_marked, unsafe_marker_first_only (UnsafePunctuatedMeta reports the marker exactly when the list starts with the bare keyword; anywhere else `unsafe` is read as a parameter of that name). Tie: real macro + rustc over unions "
          "of every size class initialised from byte patterns: == on all pairs, recorded hasher writes, {:?}/{:#?}. End to end (Props/E2E.lean): debug_union_end_to_end / eqLike_union_end_to_end / union_without_unsafe_refused - acceptance of a union by the Debug, PartialEq or Hash handler implies the `unsafe` marker was read from the attribute, and the emitted item is the byte-wise one; without it the handler answers unionWithoutUnsafe.",
          COMMON_NOTE + "the byte view (from_raw_parts over size_of::<Self>()) is taken as given: unions with padding are not generated because reading padding is undefined; the refusal without `unsafe` is proved on the model and tied to the code by the attribute-layer correspondence (C13).",
          "Lean 4 theorem + differential correspondence on byte patterns"),
@@ -114,7 +114,7 @@ CLAIMS = {
          "deref/intoHandler_traits (replace the set of educed traits by any set that agrees on the traits named in field / variant "
          "attributes and on the documented partner: the trait's items are identical; Debug, Hash, Default, Deref, DerefMut, Into need no "
          "membership agreement at all). Ctx.traits is a membership function so order / re-configuration of other traits cannot be "
-         "observed (with C16 dispatch_perm). Tie: twin definitions from all "
+         "observed (with C16 dispatch_perm). Props/ListParse.lean (the model of educe's list parsers over syn's elements): parseTerminated_render / parseTerminated_only_rendered (the accepted lists are exactly the comma-separated renderings of Meta elements), trailing_comma_irrelevant. Tie: twin definitions from all "
          "behavioural generators: alone / with 1-3 other traits and their own attributes on the same fields / with one educed trait and all "
          "its metas removed; every non-coupled impl's real token stream must be identical across the twins, model agrees.",
          COMMON_NOTE + "that the real handlers read nothing else is tied by the twin correspondence, not by a source-level data-flow analysis.",
